@@ -213,6 +213,17 @@ def grid():
         for pos in (1, 2):
             for p in [now - s + k for k in ks] + [now - s - FAR, now - 10 * DAY, now + s + FAR]:
                 out.append({'s': s, 'judged': 'snooa2', 'subset': 'all', 'bounds': dict(comfy, snooa2=p), 'ii': now, 'spell': len(out) % len(SPELL), 'scd2': pos, 'near': abs(p - now) <= s + 3})
+        # inverted windows (NotBefore later than NotOnOrAfter) whose two bounds both lie inside the allowance around now, so that neither bound fails by itself:
+        # on the Conditions, on the only confirmation, and on one of two confirmations (either position; the other one comfortable / unbounded)
+        for half in sorted(set([1, max(1, s // 2), max(1, s - 1)])):
+            if half > s:
+                continue
+            inv = {'snb': now + half, 'snooa': now - half}
+            out.append({'s': s, 'judged': 'inverted-scd', 'subset': 'all', 'bounds': dict(comfy, **inv), 'ii': now, 'spell': 0, 'near': True})
+            for pos in (1, 2):
+                for other in (comfy['snooa'], None):
+                    out.append({'s': s, 'judged': 'inverted-scd-of-two', 'subset': 'all', 'bounds': dict(comfy, snooa2=other, **inv), 'ii': now, 'spell': 0, 'scd2': pos, 'near': True})
+            out.append({'s': s, 'judged': 'inverted-conditions', 'subset': 'all', 'bounds': dict(comfy, cnb=now + half, cnooa=now - half), 'ii': now, 'spell': 0, 'near': True})
         # the attribute-query answer entry point: Conditions and confirmation bounds
         for judged in ('cnb', 'cnooa', 'snooa'):
             if judged == 'cnb':
